@@ -130,8 +130,8 @@ T_Cb == /\ IsEvent("cb")
 T_HBegin == /\ IsEvent("h_begin")
             /\ LET a == E.task IN
                /\ G("hb.cur", cur = a /\ ~yl)
-               /\ G("hb.phase", act[a].pc = "dequeued" /\ act[a].curp.k = "task" /\ act[a].curp.rs # "ping")
-               /\ G("hb.fifo", act[a].curp.m = E.m)
+               /\ G("hb.phase." \o E.src, act[a].pc = "dequeued" /\ act[a].curp.k = "task" /\ act[a].curp.rs # "ping")
+               /\ G("hb.fifo." \o E.src, act[a].curp.m = E.m /\ act[a].curp.src = E.src)
                /\ G("hb.inst", act[a].inst = E.inst /\ act[a].inc = E.inc)
                /\ RunLoop(a)
 
@@ -162,6 +162,8 @@ T_Eff == /\ IsEvent("eff")
             /\ G("eff.kind", CurEff(a).e = E.e /\ CurEff(a).n = E.n)
             /\ (E.e \in {"ctx_stop", "ctx_restart"} => G("eff.ctx", (E.res = "ok") <=> CtxSubmitOk(a)))
             /\ (E.e \in TimerKinds => G("eff.timer", CurEff(a).s = E.s))
+            /\ (E.e \in DOMAIN ChildBucket =>
+                   G("eff.child", CurEff(a).s = E.s /\ ((E.res = "ok") <=> (E.s \in DOMAIN hnd /\ hnd[E.s].owner = a /\ hnd[E.s].kind = "addr"))))
             /\ ScriptStep(a) /\ UNCHANGED <<cur, yl>>
 
 T_TimerFire == /\ IsEvent("timer_fire")
